@@ -244,7 +244,7 @@ func (vc *VC) execUnOp(x *ssa.UnOp, pc string, st *State) {
 		}
 		// loads through pointers produced by FieldAddr/IndexAddr/Alloc/Global are known non-nil; others need a check
 		switch x.X.(type) {
-		case *ssa.FieldAddr, *ssa.IndexAddr, *ssa.Alloc, *ssa.Global:
+		case *ssa.FieldAddr, *ssa.IndexAddr, *ssa.Alloc, *ssa.Global, *ssa.FreeVar:
 		default:
 			vc.oblige("nil", "", pc, not(eq(p, nilLoc)), nil, x.Pos(), "load through nil pointer")
 		}
